@@ -450,6 +450,14 @@ class Transaction:
                 add(tid, uid, rsp)
             elif o == "ownExc":
                 add(tid, uid, exc)
+            if o in ("own", "ownExc") and not exact and self.name.startswith("serial") and rng.random() < (0.7 if reqpdu[0] in (22, 17) else 0.3) \
+                    and len(out["rx"]) > 2:
+                # the reply reaches the port in two bursts a few milliseconds apart: below the 10 ms the serial client polls at - a longer
+                # gap inside a frame is a broken frame on a serial line (and is what the outcome "short" stands for)
+                cut = rng.randint(1, len(out["rx"]) - 1)
+                line.pending.append([self.clock.t + rng.choice([0.002, 0.004, 0.008]), out["rx"][cut:]])
+                out["rx"] = out["rx"][:cut]
+                out["sizes"] = [cut]
             elif o == "staleOwn":
                 add_stale()
                 add(tid, uid, rsp)
